@@ -485,6 +485,28 @@ class Runner:
             else:
                 df = sc.limit(coll, xs, side=s["side"])
             return {"t": "multi", "obs": [{"t": "vals", "vals": [num(v) for v in row]} for row in df.values.tolist()]}
+        if k == "slicehist":
+            st = R[s["r"]]
+            ii = pd.IntervalIndex.from_tuples([(float(a), float(b)) for a, b in s["bins"]], closed=s["closed"])
+            conv = (lambda v: num(v)) if (self.dom.name in ("float", "int") or s["stat"] in ("probability", "density")) else self.dom.length_back
+            try:
+                df = self.slicer(st, s).hist(bins=ii, stat=s["stat"])
+                obs = []
+                for row in df.values.tolist():
+                    obs += [{"t": "skip"}, {"t": "vals", "vals": [conv(v) for v in row]}]
+            except Exception as exc:
+                # the whole call raises as soon as one slice has no histogram (no finite piece on which the function is
+                # defined): check that some slice raises on its own; nothing is compared then
+                one_err = False
+                for a, b in s["ivs"]:
+                    try:
+                        st.clip(self.dom.to(a), self.dom.to(b)).hist(bins=ii, stat=s["stat"])
+                    except Exception:
+                        one_err = True
+                obs = []
+                for _ in s["ivs"]:
+                    obs += [{"t": "skip"}, {"t": "skip"} if one_err else err_obs(exc)]
+            return {"t": "multi", "obs": obs}
         if k == "arrcov":
             coll = [R[r] for r in s["regs"]]
             kw = {"where": self.where_arg(s)}
@@ -617,7 +639,12 @@ class Runner:
             return {"t": "vals", "vals": [num(st.fractile(p)) for p in ps]}
         if q == "hist":
             ii = pd.IntervalIndex.from_tuples([(float(a), float(b)) for a, b in s["bins"]], closed=s["closed"])
-            h = st.hist(bins=ii, stat=s["stat"])
+            if s.get("unit"):       # the default bins="unit": the generator states which bins that must be
+                h = st.hist(bins="unit", closed=s["closed"], stat=s["stat"])
+                if not (len(h.index) == len(ii) and all(a.left == b.left and a.right == b.right and a.closed == b.closed for a, b in zip(h.index, ii))):
+                    return {"t": "err", "e": "other", "type": "UnitBins", "msg": f"unit bins {list(h.index)[:6]} expected {list(ii)[:6]}"}
+            else:
+                h = st.hist(bins=ii, stat=s["stat"])
             return {"t": "vals", "vals": [num(v) if d.name in ("float", "int") or s["stat"] in ("probability", "density") else d.length_back(v)
                                            for v in h.values.tolist()]}
         if q == "vir":
